@@ -450,6 +450,15 @@ func ApplyEdits(r *vh.Rand, b *Bundle, pkg string, n int) []EditRec {
 				}
 			}
 			site.e.Opts = append(site.e.Opts, o)
+			if !strings.HasSuffix(o, "UNSPECIFIED") && r.Chance(25) {
+				// `number = N` on the appended option, N among the numbers the earlier options have:
+				// ignored by the compiler (seeded C13-G: honoured, the earlier options renumbered)
+				if site.e.OptNum == nil {
+					site.e.OptNum = map[string]int{}
+				}
+				site.e.OptNum[o] = r.Range(1, len(site.e.Opts))
+				note += "_with_number_attr"
+			}
 			recs = append(recs, EditRec{"option", site.desc, o, site.edit(o), note})
 		default: // declaration
 			fk := r.Intn(len(files))
